@@ -9,7 +9,7 @@ for d in seeded/C*-*/; do
   chk=$id
   # seeds that are, by design, caught by another property's check
   case $name in C07-3|C07-6|C07-7) chk=C08;; esac
-  out=$(./scripts/seedtest.sh $chk $d/patch.diff quick 2>&1); rc=$?
+  out=$(LINES_OUT=4000 ./scripts/seedtest.sh $chk $d/patch.diff quick 2>&1); rc=$?
   v=$(echo "$out" | grep -c '^VIOLATION')
   verdict=MISSED; [ $rc -eq 1 ] && [ $v -gt 0 ] && verdict=CAUGHT; [ $rc -eq 2 ] && verdict=HARNESS-ERROR
   echo "$name by $chk: $verdict (exit $rc, $v violations) $(echo "$out" | grep ' tier=' | tail -1 | cut -c1-120)" >> $LOG
